@@ -16,6 +16,15 @@ edits which only change the *orientation* of a construct cannot change a verdict
   N21 `if c: ...; return|raise|continue|break` with an `else: E` -> the `if` without else, followed by E
   N8  `if c: x = A else: x = B` -> `x = A if c else B`;  `x = D` directly followed by `if c: x = V` -> `x = V if c else D` (D a simple value)
 
+Later additions (each documented at its function; DESIGN.md sections 11-18):
+  N9-N18  defaultdict grouping, unpack of literal pairs, accumulate loops <-> comprehensions, loops over generators, search loops <-> all()/any(),
+          chain.from_iterable, unrolled literal tables, getattr with a literal name, constant folding, single-use temporaries
+  N19 library references in one spelling (nx. / np. / pd., bare stdlib members)      N20 nested ifs merged      N21 else after a jump dropped
+  N22 calls to resolved callees written positionally, default-valued keywords dropped  N23 .format / % read as f-strings
+  N24 a local that merely names `self.a.b` is that attribute      N26 `**extra` of a never-written empty literal dropped      N27 dead code after a jump
+  N28 private NamedTuple records are tuples (fields unpacked)      N29 private slotted records are dicts      N30 a private field that is only a literal
+  (+ sa/specialise.py: opt-in options newer than the pinned tree are analysed at their default; sa/inline.py: helpers newer than the pinned tree substituted)
+
 Line numbers are kept (reports still point at the source line); printed constructs show the normal form.
 `==` / `!=` between two non-constant operands keep their source order: `sa/pattern.py` matches them commutatively."""
 from __future__ import annotations
